@@ -19,27 +19,27 @@ from mosromgr.mostypes import RunningOrder
 DEFAULT_KINDS = [k for k in build.ALL_KINDS if k != 'roDelete']
 
 
-def live_step(ro, msg_xml, history):
+def live_step(ro, msg_xml, history, as_bytes=False):
     """Like drive.eval_step but on a live running-order object."""
     ev = drive.StepEval()
     before = str(ro)
-    ev.case = {'history': list(history) + [msg_xml]}
+    ev.case = {'history': list(history) + [msg_xml], 'as_bytes': as_bytes}
     ev.msg = model.Msg(msg_xml)
     ev.state = xmlcmp.state_of(ET.fromstring(before))
     ev.ex = model.expect(ev.state, ev.msg)
-    ev.obs = step.run_step(before, msg_xml, ro_obj=ro)
+    ev.obs = step.run_step(before, msg_xml.encode('utf-8') if as_bytes else msg_xml, ro_obj=ro)
     if ev.obs.parse_exc is None and ev.msg.kind is not None and ev.obs.cls_name != ev.msg.kind:
         ev.ex = model.Expect()
         ev.ex.note = 'class-mismatch'
     return ev
 
 
-def replay_history(hist):
+def replay_history(hist, as_bytes=False):
     """Yield a StepEval per message of the history (fresh live object)."""
-    ro = RunningOrder.from_string(hist[0])
+    ro = RunningOrder.from_string(hist[0].encode('utf-8') if as_bytes else hist[0])
     done = [hist[0]]
     for msg_xml in hist[1:]:
-        ev = live_step(ro, msg_xml, done)
+        ev = live_step(ro, msg_xml, done, as_bytes=as_bytes)
         done.append(msg_xml)
         if ev.obs.ro is not None:
             ro = ev.obs.ro
@@ -49,7 +49,7 @@ def replay_history(hist):
 def rejudge_history(case, modname):
     mod = drive._mod(modname)
     fails = []
-    for ev in replay_history(case['history']):
+    for ev in replay_history(case['history'], case.get('as_bytes', False)):
         fails += mod.judge(ev)
     return fails
 
@@ -66,7 +66,7 @@ def shrink_history(case, still_fails):
             if len(trial) < 2:
                 continue
             try:
-                ok = still_fails({'history': trial})
+                ok = still_fails({'history': trial, 'as_bytes': case.get('as_bytes', False)})
             except Exception:
                 ok = False
             if ok:
@@ -78,7 +78,7 @@ def shrink_history(case, still_fails):
     # defective tree can reach states that are not valid inputs for the correct one.
     import os
     if os.environ.get('VERIF_KEEP_HISTORY'):
-        return {'history': hist}
+        return {'history': hist, 'as_bytes': case.get('as_bytes', False)}
     try:
         ro = RunningOrder.from_string(hist[0])
         for msg_xml in hist[1:-1]:
@@ -88,7 +88,7 @@ def shrink_history(case, still_fails):
             return single
     except Exception:
         pass
-    return {'history': hist}
+    return {'history': hist, 'as_bytes': case.get('as_bytes', False)}
 
 
 def make_machine(mod, col, kinds=None, faults='some', rich=True, degenerate=True,
@@ -107,7 +107,9 @@ def make_machine(mod, col, kinds=None, faults='some', rich=True, degenerate=True
         @initialize(ro=gen.running_order(max_stories=max_stories, max_items=3, rich=rich,
                                          timing_mode=timing_mode, simple_ids=simple_ids))
         def create(self, ro):
-            self.ro = RunningOrder.from_string(ro['ro_xml'])
+            # from bytes in half of the histories (what from_file / from_s3 hand over)
+            self.as_bytes = ro['mid'] % 2 == 0
+            self.ro = RunningOrder.from_string(ro['ro_xml'].encode('utf-8') if self.as_bytes else ro['ro_xml'])
             self.hist = [ro['ro_xml']]
             self.ro_id = ro['ro_id']
             self.mid = ro['mid']
@@ -132,7 +134,7 @@ def make_machine(mod, col, kinds=None, faults='some', rich=True, degenerate=True
                 # outside what the message generator handles: skip the step, keep the run
                 col.excluded['generator could not draw a message for the reached state'] += 1
                 return
-            ev = live_step(self.ro, msg_xml, self.hist)
+            ev = live_step(self.ro, msg_xml, self.hist, as_bytes=self.as_bytes)
             self.hist.append(msg_xml)
             mod.record(col, ev)
             if on_state is not None:
